@@ -1,5 +1,5 @@
 """C20 — no undefined behaviour inside the documented domains: the generators of the other properties replayed through
-sanitizer builds (ASan + UBSan incl. float-cast-overflow), and the operation table in sanitizer-built pure and AVX2 libraries."""
+sanitizer builds (ASan + UBSan incl. float-cast-overflow), and the operation table in sanitizer-built pure, AVX2 and SSE2 libraries."""
 import props
 from vlib import Stage, SAN
 from optable import Cfg, driver_stage
@@ -12,7 +12,9 @@ THOROUGH = {'C01': 0.05, 'C02': 0.05, 'C04': 0.05, 'C05': 0.3, 'C06': 0.05, 'C07
 def SPEC(tier):
     stages = []
     cfgs = [Cfg('san-pure', SANLIB + ['-DGLM_FORCE_PURE'], compiler='clang++', opt='-O1'),
-            Cfg('san-avx2', SANLIB + ['-DGLM_FORCE_INTRINSICS', '-mavx2'], compiler='clang++', opt='-O1', aligned=True)]
+            Cfg('san-avx2', SANLIB + ['-DGLM_FORCE_INTRINSICS', '-mavx2'], compiler='clang++', opt='-O1', aligned=True),
+            Cfg('san-sse2', SANLIB + ['-DGLM_FORCE_INTRINSICS', '-msse2'], compiler='clang++', opt='-O1', aligned=True),
+            Cfg('san-avx2-swizzle', SANLIB + ['-DGLM_FORCE_INTRINSICS', '-mavx2', '-DGLM_FORCE_SWIZZLE'], compiler='clang++', opt='-O1', aligned=True)]
     st = driver_stage('C20', cfgs, 'class', 1500, 30000, name='optable.san')
     st.cmd = list(SAN)
     st.kind = 'san'
@@ -31,7 +33,7 @@ def SPEC(tier):
     return {'stages': stages, 'only_key_prefixes': ['ubsan/', 'crash'],
             'assumptions': props.COMMON_ASSUME + ['only what clang 14 ASan/UBSan can observe: type punning through unions and strict-aliasing violations are invisible to it (they are covered only indirectly by the O0/O2 differential of C15)',
                                                    'UBSan reports inside harness code (outside glm/) are logged and ignored; the runtime reports each source location once per process, so one case is recorded per UB site'],
-            'rule': 'the generators of the other properties (exhaustive small-integer domains, subsampled float sweeps, lattices, random cases) and the operation table are executed in ASan+UBSan builds (pure path, AVX2 path); '
+            'rule': 'the generators of the other properties (exhaustive small-integer domains, subsampled float sweeps, lattices, random cases) and the operation table are executed in ASan+UBSan builds (pure path, AVX2 path, SSE2 path); '
                     'a failure is any sanitizer report attributed to a file under glm/; non-trivial cases are those of the replayed property'}
 
 
